@@ -1060,7 +1060,8 @@ META = {
                   SearchManager._get_wishlist_request_timeout, SearchManager.remove_request,
                   SearchManager._attach_request_timer_and_emit, SearchManager._timeout_search_request,
                   SearchManager._on_message_received, SearchManager._on_peer_search_reply, SearchManager._on_wish_list_interval,
-                  SearchManager.stop, Timer.start, Timer.cancel, Timer.reschedule, Timer._unset_task, Timer.runner,
+                  SearchManager.stop, SearchManager._on_session_initialized, SearchManager._on_session_destroyed,
+                  SearchManager._on_state_changed, Timer.start, Timer.cancel, Timer.reschedule, Timer._unset_task, Timer.runner,
                   BackgroundTask.start, BackgroundTask.cancel, BackgroundTask.runner, ticket_generator, EventBus.emit],
     'stubs': ['asyncio event loop -> engine.vloop.VLoop (virtual time; symbolic instants in the timer heap fork on comparison)',
               'network -> object whose send_server_messages records the messages and returns at once',
@@ -1073,6 +1074,8 @@ META = {
               '(symbolic exploration only; replays use plain ints and the unwrapped generator)',
               'symbolic time-outs are written into the real pydantic settings objects through __dict__ (a proxy cannot pass int '
               'validation); replays assign them normally',
+              'session loss / re-login: ConnectionStateChangedEvent(CLOSING, CLOSED), SessionDestroyedEvent, SessionInitializedEvent emitted on the real '
+              'EventBus by the harness in the order SoulSeekClient emits them (real ServerConnection / Session / User objects)',
               'logging disabled'],
     'data_variables': ['ticket generator position 1..2^32-1 (Int)', 'ticket of every incoming reply 0..2^32-1 (Int)',
                        'searches.send.request_timeout 0..2^32 (Int)', 'searches.send.wishlist_request_timeout -1..2^32 (Int)',
@@ -1080,7 +1083,9 @@ META = {
                        'hence every deadline and every instant at which a reply / removal / expiry happens (Real)'],
     'discriminants': ['the sequence of API calls of a history (job parameter)', 'which registered request the user removes',
                       'which request a matching reply answers', 'which side (user task / library task) runs next when callbacks of both are ready in one instant (2-way, FIFO within a side)',
-                      'send returns at once / takes a symbolic time', 'disconnect() returns at once / suspends for a symbolic time',
+                      'send returns at once / takes a symbolic time',
+                      'kinds of the further application listeners of the removal / result events: sync | async without yield | async yielding (its duration is symbolic)',
+                      'position of a session loss + re-login in the history (op Z)', 'disconnect() returns at once / suspends for a symbolic time',
                       'Timer op script'],
     'bounds': {'quick': {'requests_per_history': '<= 5 (3 direct searches + wishlist rounds of 2)', 'ops_per_history': '<= 9',
                          'consecutive_tickets': 8, 'timer_script_ops': '<= 4 (14 scripts)', 'wishlist_task_rounds': '<= 3',
@@ -1165,7 +1170,7 @@ def jobs(tier):
     lj = [('TSDQD', ['sync', 'yield', 'async'], 'instant'), ('TSRDQD', ['yield', 'sync'], 'instant'),
           ('ILDQD', ['async', 'yield', 'sync'], 'instant')]
     if not q:
-        lj += [('TSDXDSDQD', ['yield', 'yield'], 'instant'), ('TSTRDQDQ', ['sync', 'yield', 'sync'], 'instant'),
+        lj += [('TSDQD', ['yield', 'yield'], 'instant'), ('TSTRDQ', ['sync', 'yield', 'sync'], 'instant'), ('TSDQXD', ['yield', 'sync'], 'instant'),
                ('WILDQD', ['yield', 'async'], 'instant'), ('TSQD', ['yield', 'sync'], 'slow'), ('TSDQD', ['yield'], 'instant')]
     for ops, ls, disc in lj:
         params = {'ops': ops, 'position': 'low', 'listeners': ls}
